@@ -105,6 +105,7 @@ func main() {
 		total += genRot(out, rng, cnt(800, 20000))
 		total += genRotHuge(out, rng, cnt(60, 2000))
 		total += genRotAdversarial(out, rng, cnt(1500, 40000))
+		total += genRotReuse(out, rng, cnt(8, 80))
 	case "api":
 		if thorough {
 			total += genAPI(out, rng, 4, 20000)
